@@ -14,6 +14,14 @@ func requires(c bool) {
 	}
 }
 
+// domain restricts the verified domain of a function: assumed when the function is verified, not
+// checked at its call sites (always listed as an assumption in the evidence).
+func domain(c bool) {
+	if !c {
+		panic("verif: requires violated")
+	}
+}
+
 func ensures(c bool) {
 	if !c {
 		panic("verif: ensures violated")
